@@ -5,32 +5,45 @@
    Vocabulary (Model/Backoff.v, Proofs/BackoffP.v):
      set_default b            the receiver after setDefault (0 fields -> the code's default constants)
      expo b n                 Z.min (cap b) (base b * factor b ^ n), in ms
+     max_ms                   9223372036854 = MaxInt64 / 10^6: the most ms a time.Duration holds
+     sat b n                  Z.min max_ms (expo b n): the delay in ms (= expo b n when cap <= max_ms)
      dur_for_attempt b n r    durationForAttempt(n); r = what the global rand source
-                              answers; result = (receiver, Dur ns | Panic), ns an int64
+                              answers; result = (receiver, Dur ns), ns an int64
      dur_seq b rs             consecutive duration() calls (one oracle value each)
-     bounds b                 0 < base, factor, cap <= 2^40   (positive_params: 0 < only) *)
+     positive_params b        0 < base b, 0 < factor b, 0 < cap b   -- "every positive base, factor and cap"
+     bounds b                 positive_params b and cap b <= max_ms (the cap is a Duration):
+                              only where a delay is said to EQUAL min(cap, base*factor^n) *)
 From Coq Require Import List ZArith Bool.
 From XV Require Import Gen.Generated Model.Backoff Proofs.BackoffP.
 Import ListNotations.
 Open Scope Z_scope.
 
-(* Never negative, never above the cap, never a panic: for every attempt number n >= 0
-   however large, with and without jitter, every oracle value. *)
+(* Never negative, never above the cap, always a genuine Duration (no int64 wrap): for
+   every positive base, factor and cap, every attempt number n >= 0 however large, with
+   and without jitter, every oracle value. *)
 Theorem C19_bounded : forall b n r,
-  bounds (set_default b) -> 0 <= n ->
+  positive_params (set_default b) -> 0 <= n ->
   exists ns, snd (dur_for_attempt b n r) = Dur ns /\
-             0 <= ns <= cap (set_default b) * millisecond.
+             0 <= ns <= cap (set_default b) * millisecond /\ ns < 2 ^ 63.
 Proof. exact dfa_bounded. Qed.
 
 (* Per-attempt query without jitter: exactly min(cap, base * factor^n) ms.
-   (The unrepaired code computes the value at b.attempt instead of n: D5.) *)
+   (The unrepaired code computed the value at b.attempt instead of n: D5.) *)
 Theorem C19_formula_query : forall b n r,
   no_jitter b = true -> bounds (set_default b) -> 0 <= n ->
   snd (dur_for_attempt b n r) = Dur (expo (set_default b) n * millisecond).
 Proof. exact dfa_nojitter. Qed.
 
+(* ... and for caps beyond what a Duration can hold (D22, repaired: it used to wrap to
+   negative delays), that value saturated at max_ms. *)
+Theorem C19_formula_query_saturated : forall b n r,
+  no_jitter b = true -> positive_params (set_default b) -> 0 <= n ->
+  snd (dur_for_attempt b n r) =
+  Dur (Z.min max_ms (expo (set_default b) n) * millisecond).
+Proof. exact dfa_sat_nojitter. Qed.
+
 (* The stateful sequence is the per-attempt query at attempt, attempt+1, ... -- with or
-   without jitter (needs positivity only: no panic, same values). *)
+   without jitter. *)
 Theorem C19_seq_is_query : forall b rs,
   positive_params (set_default b) -> 0 <= attempt b ->
   snd (dur_seq b rs) =
@@ -64,13 +77,14 @@ Theorem C19_outages_restart : forall b ms,
                     (seq 0 (Z.to_nat m))) ms.
 Proof. intros b ms. exact (outages_spec ms b b eq_refl). Qed.
 
-(* Non-decreasing in n (the formula, and the delays returned without jitter). *)
+(* Non-decreasing in n (the formula, and the delays returned without jitter -- for every
+   positive cap, saturated or not). *)
 Theorem C19_monotone : forall b n m,
   positive_params b -> 0 <= n <= m -> expo b n <= expo b m.
 Proof. exact expo_mono. Qed.
 
 Theorem C19_monotone_delays : forall b n m r1 r2,
-  no_jitter b = true -> bounds (set_default b) -> 0 <= n <= m ->
+  no_jitter b = true -> positive_params (set_default b) -> 0 <= n <= m ->
   exists d1 d2, snd (dur_for_attempt b n r1) = Dur d1 /\
                 snd (dur_for_attempt b m r2) = Dur d2 /\ d1 <= d2.
 Proof. exact dfa_monotone. Qed.
@@ -85,28 +99,29 @@ Theorem C19_factor_one_constant : forall b n,
   factor b = 1 -> 0 <= n -> expo b n = Z.min (cap b) (base b).
 Proof. exact expo_factor_1. Qed.
 
-(* With jitter the delay lies between zero and min(cap, base * factor^n) ms, for every
-   value r the random source may answer (r : Z is arbitrary; the delay is a Duration in
-   ns, not necessarily a whole number of ms) ... *)
+(* With jitter the delay lies between zero and the delay without jitter (min(cap, base *
+   factor^n) ms, saturated at max_ms), for every value r the random source may answer
+   (r : Z is arbitrary; the delay is a Duration in ns, not necessarily a whole number of
+   ms) ... *)
 Theorem C19_jitter_range : forall b n r,
-  no_jitter b = false -> bounds (set_default b) -> 0 <= n ->
+  no_jitter b = false -> positive_params (set_default b) -> 0 <= n ->
   exists ns, snd (dur_for_attempt b n r) = Dur ns /\
-             0 <= ns < expo (set_default b) n * millisecond.
+             0 <= ns < Z.min max_ms (expo (set_default b) n) * millisecond.
 Proof. exact dfa_jitter. Qed.
 
 (* ... the model allows every Duration of that range (it does not fix how the draw is
-   made), and the code's whole-millisecond draw rand.Intn(d) * time.Millisecond, d =
-   min(cap, base * factor^n), is one admissible way. *)
+   made), and the code's whole-millisecond draw rand.Int63n(d) * time.Millisecond is one
+   admissible way. *)
 Theorem C19_jitter_any_in_range : forall b n ns,
-  no_jitter b = false -> bounds (set_default b) -> 0 <= n ->
-  0 <= ns < expo (set_default b) n * millisecond ->
+  no_jitter b = false -> positive_params (set_default b) -> 0 <= n ->
+  0 <= ns < Z.min max_ms (expo (set_default b) n) * millisecond ->
   snd (dur_for_attempt b n ns) = Dur ns.
 Proof. exact dfa_jitter_onto. Qed.
 
 Theorem C19_jitter_ms_draw_admissible : forall b n k,
-  no_jitter b = false -> bounds (set_default b) -> 0 <= n ->
+  no_jitter b = false -> positive_params (set_default b) -> 0 <= n ->
   snd (dur_for_attempt b n (k * millisecond)) =
-  Dur ((k mod expo (set_default b) n) * millisecond).
+  Dur ((k mod Z.min max_ms (expo (set_default b) n)) * millisecond).
 Proof. exact ms_draw_admissible. Qed.
 
 (* The executable saturating computation used by the model runner is the formula. *)
@@ -123,39 +138,31 @@ Theorem C19_defaults :
   (forall nj a, set_default (mkBackoff nj 0 0 0 a)
                 = mkBackoff nj default_base default_factor default_cap a) /\
   (forall nj a, bounds (set_default (mkBackoff nj 0 0 0 a))) /\
-  (forall b n r, cap b = 0 -> bounds (set_default b) -> 0 <= n ->
+  (forall b n r, cap b = 0 -> positive_params (set_default b) -> 0 <= n ->
      exists ns, snd (dur_for_attempt b n r) = Dur ns /\ 0 <= ns <= 3 * 60 * 1000000000).
 Proof.
   split; [exact set_default_all_zero|]. split; [exact bounds_all_zero|].
   exact default_cap_three_minutes.
 Qed.
 
-(* D22 (known finding, not repaired): "every positive base, factor and cap" fails for
-   caps of 2^63/10^6 ms (292 years) and more.  Base 3 ms, Factor 7, Cap 2^62 ms, all
-   positive and within Go's int, attempt 15: the delay is negative (int64 overflow in
-   time.Duration(d) * time.Millisecond).  Observed identically on the real code. *)
-Theorem C19_huge_cap_refuted :
-  exists b n r ns,
-    positive_params b /\ cap b < 2 ^ 63 /\ no_jitter b = true /\ 0 <= n /\
-    snd (dur_for_attempt b n r) = Dur ns /\ ns < 0.
-Proof.
-  exists (fresh true 3 7 (2 ^ 62)), 15, 0, (-4204059543880551616).
-  repeat split; try exact huge_cap_negative; try reflexivity; cbn; discriminate.
-Qed.
-
 (* non-vacuity: a configuration inside the hypotheses, its first delays without
-   jitter, reset, and a jittered query *)
+   jitter, a jittered query, and a cap beyond what a Duration can hold (D22: Base 3 ms,
+   Factor 7, Cap 2^62 ms, attempt 15 used to give -4204059543880551616 ns) *)
 Example C19_example :
   bounds (set_default (fresh true 20 3 1000)) /\
   snd (dur_seq (fresh true 20 3 1000) [0; 0; 0; 0; 0; 0])
   = [Dur 20000000; Dur 60000000; Dur 180000000; Dur 540000000; Dur 1000000000; Dur 1000000000] /\
   snd (dur_for_attempt (fresh true 20 3 1000) 2147483648 0) = Dur 1000000000 /\
   snd (dur_for_attempt (fresh false 20 3 1000) 2 1234567890) = Dur 154567890 /\
-  snd (dur_for_attempt (fresh false 5 2 (-1)) 0 7) = Panic.
-Proof. repeat split; try reflexivity; cbn; discriminate. Qed.
+  positive_params (set_default (fresh true 3 7 (2 ^ 62))) /\
+  snd (dur_for_attempt (fresh true 3 7 (2 ^ 62)) 15 0) = Dur 9223372036854000000.
+Proof.
+  repeat split; try reflexivity; try exact huge_cap_saturates; cbn; discriminate.
+Qed.
 
 Print Assumptions C19_bounded.
 Print Assumptions C19_formula_query.
+Print Assumptions C19_formula_query_saturated.
 Print Assumptions C19_seq_is_query.
 Print Assumptions C19_formula_seq.
 Print Assumptions C19_formula_seq_after_reset.
@@ -169,4 +176,3 @@ Print Assumptions C19_jitter_any_in_range.
 Print Assumptions C19_jitter_ms_draw_admissible.
 Print Assumptions C19_exec_is_formula.
 Print Assumptions C19_defaults.
-Print Assumptions C19_huge_cap_refuted.
